@@ -12,6 +12,9 @@ import time
 import traceback
 
 HERE = os.path.dirname(os.path.abspath(__file__))
+if os.environ.get("MIRSMT_VERBOSE"):
+    import faulthandler, signal
+    faulthandler.register(signal.SIGUSR1, all_threads=True)
 sys.path.insert(0, HERE)
 import z3  # noqa: E402
 import api  # noqa: E402
